@@ -28,8 +28,11 @@ type fakeRW struct {
 	failAt   int // fail the n-th Write (1-based); 0 = never
 	writes   int
 	onWrite  func(p []byte)
+	gateFn   func() // called before every write, outside the lock (stalled writer)
 	events   []string // trace of writes/flushes for the timed family
 }
+
+func zapNop() *zap.Logger { return zap.NewNop() }
 
 func newRW() *fakeRW { return &fakeRW{hdr: http.Header{}} }
 
@@ -47,6 +50,9 @@ var errDeadline = errors.New("i/o timeout (write deadline exceeded)")
 var errInjected = errors.New("injected write error")
 
 func (w *fakeRW) Write(p []byte) (int, error) {
+	if w.gateFn != nil && w.started() {
+		w.gateFn()
+	}
 	w.mu.Lock()
 	defer w.mu.Unlock()
 	if w.status == 0 {
@@ -65,6 +71,14 @@ func (w *fakeRW) Write(p []byte) (int, error) {
 	}
 
 	return len(p), nil
+}
+
+// started: the first write (the ":\n" that flushes the headers) is never gated.
+func (w *fakeRW) started() bool {
+	w.mu.Lock()
+	defer w.mu.Unlock()
+
+	return w.writes > 0
 }
 
 func (w *fakeRW) Flush() {}
